@@ -142,6 +142,7 @@ std::vector<std::string> currentTail();
 void setCrashWriter(void (*w)(const char* key)); // must be async-signal-safe
 size_t formatDecisions(char* buf, size_t n);       // async-signal-safe rendering of the decision log
 void setSpin(int iterations);
+void setProgressHook(void (*h)()); // called every 1024 schedule points (liveness watchdog of the driver)
 void installCrashHandlers();  // SIGSEGV/SIGBUS/SIGABRT/SIGFPE -> hard failure report
 void reportExternalCrash(const char* cls, const char* key, const char* msg); // e.g. sanitizer death callback
 
